@@ -137,9 +137,9 @@ func spec_methodsOK(p *pkgInfo) bool {
 //@   requires p != nil && n != nil && spec_methodsOK(p)
 //@   ensures ptr ==> eq(result, p.methods[n.Origin()])
 //@   ensures forall i int :: 0 <= i && i < len(result) ==> result[i] != nil && spec_recvNamed(result[i]) != nil && spec_recvNamed(result[i]).Origin() == n.Origin() && (!ptr ==> !spec_isPtrRecv(result[i]))
-//@   ensures !ptr ==> forall j int :: 0 <= j && j < len(p.methods[n.Origin()]) && !spec_isPtrRecv(p.methods[n.Origin()][j]) ==> (exists i int :: 0 <= i && i < len(result) && result[i] == p.methods[n.Origin()][j])
+//@   ensures !ptr ==> forall j int :: 0 <= j && j < len(p.methods[n.Origin()]) && !spec_isPtrRecv(p.methods[n.Origin()][j]) ==> elem(p.methods[n.Origin()][j], result)
 //@   loop 1 invariant forall i int :: 0 <= i && i < len(notPtrMethods) ==> notPtrMethods[i] != nil && spec_recvNamed(notPtrMethods[i]) != nil && spec_recvNamed(notPtrMethods[i]).Origin() == n.Origin() && !spec_isPtrRecv(notPtrMethods[i])
-//@   loop 1 invariant forall j int :: 0 <= j && j < it1 && !spec_isPtrRecv(funcs[j]) ==> (exists i int :: 0 <= i && i < len(notPtrMethods) && notPtrMethods[i] == funcs[j])
+//@   loop 1 invariant forall j int :: 0 <= j && j < it1 && !spec_isPtrRecv(funcs[j]) ==> elem(funcs[j], notPtrMethods)
 //@   note MethodsOf(T, true) is the list recorded for T's origin type (so generic T works); MethodsOf(T, false) exactly its value-receiver methods
 
 //@ func pkgInfo.Type
@@ -543,6 +543,7 @@ var _ = types.Universe
 func spec_old[T any](v T) T                             { return v }
 func spec_entry[T any](v T) T                           { return v }
 func spec_has[K comparable, V any](m map[K]V, k K) bool { _, ok := m[k]; return ok }
+func spec_elem[T comparable](x T, s []T) bool           { for _, y := range s { if y == x { return true } }; return false }
 func spec_implies(a, b bool) bool                       { return !a || b }
 func spec_iff(a, b bool) bool                           { return a == b }
 func spec_eq[T any](a, b T) bool                        { panic("ghost: structural equality") }
